@@ -455,3 +455,33 @@ func VerifH11d() {
 		vReach("query-served-in-both")
 	}
 }
+
+// ---------------------------------------------------------------------------
+// H03n — the surplus of an SSLRequest is not the next packet (C03, C11, C10):
+// a server without certificates receives an SSLRequest whose length word is
+// larger than 8, the surplus shaped like the body of a start-up packet (version
+// 3.0, user "ghost"); it answers 'N'. The client then sends a packet that is
+// nothing but a length word declaring 0..8, and hangs up. No session may come
+// of it: the surplus belonged to the SSLRequest.
+// ---------------------------------------------------------------------------
+func VerifH03n() {
+	body := vCat([]byte{0, 3, 0, 0}, vKV([]byte("user"), []byte("ghost")), []byte{0})
+	surplus := body[:vChoose(len(body)+1)]
+	first := vCat(vU32(uint32(8+len(surplus))), []byte{0x04, 0xd2, 0x16, 0x2f}, surplus)
+	declared := vChoose(9)
+	second := vU32(uint32(declared))
+	sessions := 0
+	mw := SessionMiddleware(func(ctx context.Context) (context.Context, error) { sessions++; return ctx, nil })
+	w := &vWorld{parseMenu: 2, execMenu: 2}
+	srv, err := NewServer(w.parse, MessageBufferSize(64), mw)
+	vAssert("newserver-ok", err == nil)
+	conn := vNewConn(vCat(first, second))
+	srv.serve(context.Background(), conn) //nolint
+	vAssert("closed", conn.closed >= 1)
+	vAssert("ssl-refused-with-single-N", len(conn.out) >= 1 && conn.out[0] == 'N')
+	vAssert("no-session-out-of-the-surplus-of-an-SSLRequest", sessions == 0 && !vHasAuthOK(conn.out[1:]) && vCount(vTypes(conn.out[1:]), 'Z') == 0)
+	vAssert("output-wellformed", vWireOK(conn.out[1:]))
+	if len(surplus) == len(body) {
+		vReach("surplus-shaped-like-a-startup-packet")
+	}
+}
